@@ -54,6 +54,10 @@ def generate(ck):
         if ck.tier == "thorough" and i % 10 == 0:
             pmax = 14000.0
         descs.append({"kind": "composition", "comp": comp, "pmax": float(int(pmax)), "picks": [wl.f(v) for v in rng.random(16)], "threads": bool(i % 12 == 5)})
+    # cold, rich gases (reduced temperature 1.1 .. 1.5) over the WHOLE default range: Z climbs past 2 above 8000 psia -
+    # the corner where an iteration that stops early (or shares its stopping test between rows) shows
+    for T_, sg_ in ((200.0, 1.5 if False else 1.2), (120.0, 0.9), (100.0, 1.0)):
+        descs.append({"kind": "composition", "comp": {"N2": 0.0, "H2S": 0.0, "CO2": 0.0, "Gas Specific Gravity": sg_, "Reservoir Temperature (deg F)": T_, "dryness": "dry gas"}, "pmax": 14000.0, "picks": [0.62, 0.9, 0.7, 0.8, 0.8, 0.5, 0.9, 0.3, 0.93, 0.5, 0.97, 0.2, 0.3, 0.6, 0.95, 0.5], "threads": False})
     # the same tables built in interpreters started with other hash seeds (set and dict-by-hash iteration
     # order is a property of the interpreter run, not of the input): same numbers in every one
     comps = []
